@@ -277,6 +277,8 @@ def run(run):
         run.witness('%s: constraint set satisfiable' % ('3D' if wa else '2D'), s.check() == z3.sat)
         obls = section_propagate(rep, wa)
         rep.finish(rep.batch(obls, timeout_s=timeout), PROP)
+    rep.selfcheck(PROP, [{'check': 'defect', 'point': pt, 'params': {'wa': wa, 'dir': d}} for wa in (True, False) for d in ((0, 4, 7, 10, 13) if wa else (1, 3, 5, 8)) for pt in rep.points(1 if run.tier == 'quick' else 5)] +
+                  [{'check': 'propagate', 'point': {}, 'params': {'wa': wa}} for wa in (True, False)])
     cans = [(c, True) for c in CANARIES] + [(c, False) for c in CANARIES_2D]
     if run.tier == 'quick':
         cans = cans[::2] + [cans[-1]]
@@ -355,7 +357,12 @@ def replay(spec):
         return it.get_pva()
     scale = np.array([1, 1, 1, 1, 1, 1, 57.3, 57.3, 57.3])
     best = None
-    for eps, dt in ((1e-3, 1e-2), (1e-4, 1e-2)):
+    # error sizes per kind of direction: large enough that rounding of lat/lon (1e-9 m) divided by
+    # eps*dt stays below the tolerance, small enough that second-order effects are negligible
+    names = direction_names(n)
+    kind = names[k][:2]
+    sizes = {'DR': (100.0, 10.0), 'DV': (1e-1, 1e-2), 'PH': (1e-3, 1e-4), 'gy': (1e-4, 1e-5), 'ac': (1e-2, 1e-3)}[kind]
+    for eps, dt in ((sizes[0], 1e-2), (sizes[1], 1e-2)):
         # INS initial state: the one whose correction by eps x0 is the truth: correct(ins0, eps x0) = pva
         ins0 = em.correct_pva(pva, -eps * x0)
         ins0.name = 0.0
@@ -369,7 +376,14 @@ def replay(spec):
         best = val if best is None else min(best, val)
     # the documented neglected terms are below 1e-3 of the retained ones per unit error; a wrong retained term is O(1e-5..1)
     ref = max(np.abs(xdot).max(), 1e-6)
-    tol = max(2e-2 * ref, 3e-6 if k < 3 else 2e-2)
+    if kind == 'DR':
+        # position-error columns: exact at V = 0 except d(gravity)/d(latitude) (<= 2e-7 1/s^2); for
+        # V != 0 the model neglects d(transport rate)/d(position) and the rotation of the position
+        # error with the frame, of size |V|/R (1 + |tan lat|) per metre per second
+        speed = float(np.linalg.norm(pva[['VN', 'VE', 'VD']].values))
+        tol = 6e-7 + 3 * speed / 6.3e6 * (1 + abs(np.tan(np.radians(pva.lat))))
+    else:
+        tol = max(2e-2 * ref, 2e-2)
     if best > tol and (k >= n or k >= 3 or True):
         fails.append('direction %d: corrected INS state departs from the truth at rate %.3g per unit error (model rate scale %.3g): the model column is not the linearisation of the integrator' % (k, best, ref))
     return {'violated': bool(fails), 'detail': fails}
